@@ -184,7 +184,8 @@ def shard_config(arg):
             g, _ = members.member(n, orbit, rng)
             subjects.append((f"member{i}", g))
         # named textbook states of this class in uniform frames (graph state of a named graph + the same Clifford on every qubit)
-        for lab, g_named in named_by_orbit.get(orbit, [])[: (2 if k_members <= 1 else 8)]:
+        cands = sorted(named_by_orbit.get(orbit, []), key=lambda t: (0 if t[0].split("+")[1][:3] in ("hsh", "sh", "hs") else 1, t[0]))
+        for lab, g_named in cands[: (4 if k_members <= 1 else 12)]:
             subjects.append((f"named:{lab}", g_named))
         # the same class presented literally in graph form, for a graph of the orbit that need not be edge-minimal
         grng = fw.rng_for("c05g", seed, n, name, k)
